@@ -45,7 +45,7 @@ class ApiGen:
         for _ in range(4 + r.below(10)):
             k = r.weighted([('ok', 6), ('probe', 5), ('rterr', 3), ('parse', 2), ('pp', 2), ('type', 1), ('loop', 2), ('spawn', 1),
                             ('ppcall', 1), ('transpile', 1), ('status', 3), ('cfg', 2), ('new', 2), ('del', 1), ('bad', 1), ('long', 2),
-                            ('throw', 1), ('caught', 1), ('spawnfail', 2)])
+                            ('throw', 1), ('caught', 1), ('spawnfail', 2), ('evalcall', 3), ('exitcall', 1)])
             if not inst and k not in ('new', 'bad'):
                 k = 'new'
             self.note(k)
@@ -128,6 +128,19 @@ class ApiGen:
                     rc = None
                 if rc is not None:
                     rc = -6
+            elif k == 'evalcall':
+                # an expression evaluated while the text is preprocessed: it runs under this call, not under the exit
+                # request or the time budget a previous call left behind
+                g = r.choice(GLOBALS)
+                code = '%s = __EVAL(%d); %s' % (g, r.below(90), g)
+                I['globals'].add(g)
+            elif k == 'exitcall':
+                # the script ends its own run: nothing behind exit__ executes; the next call is a call like any other
+                g = r.choice(GLOBALS)
+                I['globals'].add(g)
+                g2 = r.choice([x for x in GLOBALS if x not in I['globals']] or ['gz'])
+                code = '%s = 1; exit__; %s = 2' % (g, g2)
+                rc = None
             elif k == 'caught':
                 g = r.choice(GLOBALS)
                 code = 'try { throw 1 } catch { %s = _exception }; 2' % g
